@@ -2276,8 +2276,11 @@ pub fn enum_lists_with_foreign_content() -> (Vec<W>, Vec<W>) {
 pub fn content_shapes() -> Vec<Vec<u8>> {
     let mut v: Vec<Vec<u8>> = vec![vec![], vec![0], vec![1], vec![0xff]];
     for width in 1..=3usize {
-        for inner in [0usize, 1, 5, 40] {
+        for inner in [0usize, 1, 5, 40, 128, 256] {
             for trailing in [0usize, 1, 2] {
+                if inner >= 128 && (width == 1 && inner > 255 || trailing == 1) {
+                    continue;
+                }
                 let mut b: Vec<u8> = Vec::new();
                 for k in (0..width).rev() {
                     b.push((inner >> (8 * k)) as u8);
